@@ -38,6 +38,14 @@ impl C14 {
                 self.holders_seen.insert(a.clone());
             }
         }
+        // the AccruedRewards query reports the whole-unit part of what the holder record implies
+        for (a, h) in s.holders.iter() {
+            let exact = Uint256::from(s.global_index.saturating_sub(h.index)) * Uint256::from(h.balance) + Uint256::from(h.pending);
+            if Uint256::from(h.accrued_query) != exact / e18() {
+                out.violation(P, "accrued_query_faithful", format!("{}: AccruedRewards({}) = {} but the holder record implies {} e-18", when, a, h.accrued_query, exact));
+                return;
+            }
+        }
         let acc = accrued_atomics(s);
         let rec = Uint256::from(s.prev_reward_balance) * e18();
         out.count("c14.invariant_checks");
